@@ -718,3 +718,36 @@ func (c *Ctx) decodesType(call ssa.CallInstruction, typ string, depth int) bool 
 	}
 	return false
 }
+
+const journalResetText = "the undo journal of a transaction is reset only at the transaction's boundary: Finalise / ClearChangerAndRefund of the state ledger (both drop the undo records, the valid snapshot ids and the refund counter) are called by the executor where a transaction ends and by the ledger itself - never from code that runs inside a transaction (VM stubs, contracts, host functions). A reset in the middle makes everything the transaction wrote before it irrevocable (a FAILED receipt keeps those effects), and the first RevertToSnapshot afterwards panics on a snapshot id that is no longer valid - on the executor goroutine, outside every recover (shared by C07 R07.9 and C08 R08.10)."
+
+// journalReset emits the shared rule under the given id.
+func (c *Ctx) journalReset(rule string) {
+	r := c.R
+	n := 0
+	for _, fn := range c.P.ModuleFuncs(true) {
+		for _, call := range core.Calls(fn) {
+			o := core.CalleeObj(call)
+			if o == nil || (o.Name() != "Finalise" && o.Name() != "ClearChangerAndRefund") {
+				continue
+			}
+			cn := core.CalleeName(call)
+			if !strings.Contains(cn, "ledger.") {
+				continue
+			}
+			n++
+			pkg := core.PkgOf(fn)
+			top := fn
+			for top.Parent() != nil {
+				top = top.Parent()
+			}
+			key := shortFn(top) + ": " + o.Name()
+			if pkg == "internal/executor" || pkg == "internal/ledger" || strings.HasPrefix(pkg, "internal/ledger/") {
+				r.OK(rule, key, c.P.Pos(call.Pos()), "transaction boundary (executor) / the ledger itself")
+				continue
+			}
+			r.Bad(rule, key, c.P.Pos(call.Pos()), "the state ledger's undo journal is reset inside a running transaction ("+o.Name()+" called from "+pkg+"): what the transaction wrote before this point can no longer be reverted, and the next RevertToSnapshot of the executor panics on an invalid revision id outside every recover")
+		}
+	}
+	r.Floor(rule, "journal reset sites (Finalise / ClearChangerAndRefund)", n, 3)
+}
